@@ -137,6 +137,7 @@ def eval_clause(ex, info, clause_node: ast.FunctionDef, st: State, extra: dict):
     sub = Exec(ex.ctx, info.file, contract=None, spec_mode=True)
     sub.fn_stack = [(clause_node, None)]
     sub.float_mode = ex.float_mode
+    sub.fallback_relpath = info.relpath
     n0 = len(st.pc)
     s2 = State(env, list(st.pc), st.facts)
     outs = sub.exec_block(clause_node.body, s2)
@@ -164,6 +165,7 @@ def eval_clause_value(ex, info, clause_node, st, extra):
             raise OutOfReach(f"clause {clause_node.name}: no value for parameter {nm}")
     sub = Exec(ex.ctx, info.file, contract=None, spec_mode=True)
     sub.fn_stack = [(clause_node, None)]
+    sub.fallback_relpath = info.relpath
     s2 = State(env, list(st.pc), st.facts)
     outs = sub.exec_block(clause_node.body, s2)
     if len(outs) != 1 or outs[0][0] != "return":
@@ -219,6 +221,7 @@ def do_for(ex, node: ast.For, st: State):
     if isinstance(el, VSet):
         ex.card_of(sh, el.term)
     bind(sh, k, el)
+    sh.env["_k"] = VNum(k, "int")  # ghost: iterations completed (visible to hint clauses)
     for kind, s2, payload in ex.exec_block(node.body, sh):
         if kind in ("fall", "continue"):
             e2 = dict(ext)
